@@ -5,7 +5,7 @@ from __future__ import annotations
 import ast
 
 from ..cfg import CFG
-from ..astutil import inside
+from ..astutil import cond_terms, inside
 from ..core import callee_is, AnalysisError, const_value, walk_own
 from ..events import container_events, root_name
 from ..defuse import DefUse, Terms, show, walk_term
@@ -107,28 +107,40 @@ def _psm(ctx, f):
                 out.append((no_uids(tt), o))
         return out
 
-    # (a) label
+    # (a) what happens for each kind of child element of a hit - a table
+    # over (element kind, label so far, alternative is a decoy), read off
+    # the statements executed under that valuation
+    from ..chunks import Unknown, ev
+    Tn0 = Terms(du)
+    eloops = []
+    for n in walk_own(f.node):
+        if isinstance(n, ast.For):
+            it = Tn0.of(n.iter)
+            if it[0] == "mcall" and it[1] == ("param", p_info) and \
+                    it[2] == "iter":
+                eloops.append(n)
+    ctx.require(len(eloops) == 1, f"{f.qual}: loop over the hit's child "
+                "elements not found")
+    el = eloops[0]
+    ELEM = ("elem", T.of(el.iter))
+    TAG = ("attr", ELEM, "tag")
+    ALT = accession(ELEM)
     lab = dstores("label")
     ctx.require(len(lab) >= 2, f"{f.qual}: label assignments not found")
-    firsts = [e for e in lab if cfg.enclosing(e.stmt, (ast.For, ast.While))
-              is None]
+    firsts = [e for e in lab if not inside(e.stmt, el)]
     ok_first = len(firsts) == 1 and simp(firsts[0].value) == not_decoy(
         PRIMARY) and not cfg.necessary_conditions(firsts[0].stmt)
     ctx.check(ok_first, "C20a-primary-label", f,
               "label starts as 'primary protein is not a decoy'",
               f"{[show(simp(e.value), 100) for e in firsts]}",
               node=firsts[0].node if firsts else f.node)
-    prim = [e for e in dstores("proteins")
-            if cfg.enclosing(e.stmt, (ast.For, ast.While)) is None]
+    prim = [e for e in dstores("proteins") if not inside(e.stmt, el)]
     first_list = [e for e in prim if simp(e.value) == ("list", (PRIMARY,))]
     ctx.check(len(first_list) == 1, "C20a-primary-protein", f,
               "the protein list starts with the hit's primary accession",
               f"{[show(simp(e.value), 80) for e in prim]}", node=f.node)
-    # where are the accessions collected, and is that what is joined?
     joined = [e for e in prim if e.value[0] == "mcall" and e.value[1] == (
         "const", "\t") and e.value[2] == "join" and len(e.value[3]) == 1]
-    apps = [e for e in evs if e.kind == "append" and len(e.args) == 1
-            and cfg.enclosing(e.stmt, (ast.For, ast.While)) is not None]
 
     def container_id(t):
         """'var:<name>' or 'slot:proteins' for the list of accessions"""
@@ -142,55 +154,119 @@ def _psm(ctx, f):
             return "slot:proteins"
         return None
 
-    for upd in lab:
-        if upd in firsts:
-            continue
-        cs = loop_conds(upd)
-        tag_conds = [(t, o) for t, o in cs if t[0] == "cmp"
-                     and t[1] in ("in", "not in")
-                     and t[2] == ("const", "alternative_protein")]
-        in_alt = any((t[1] == "in") == o for t, o in tag_conds)
-        ELEM = None
-        for t, o in tag_conds:
-            if t[3][0] == "attr" and t[3][2] == "tag":
-                ELEM = t[3][1]
-        ALT = accession(ELEM) if ELEM is not None else None
-        LABEL_NOW = [t for t, o in cs if t[0] == "sub" and t[2] == (
-            "const", "label") and is_d(t[1]) and o is False]
-        v = no_uids(simp(upd.value))
-        form_ok = False
-        if ALT is not None:
-            nd = no_uids(not_decoy(ALT))
-            if v == nd and LABEL_NOW:
-                form_ok = True
-            elif v[0] == "bool" and v[1] == "or" and len(v[2]) == 2 and \
-                    nd in v[2] and any(
-                        x[0] == "sub" and x[2] == ("const", "label")
-                        and is_d(x[1]) for x in v[2]):
-                form_ok = True
-        ctx.check(in_alt and form_ok, "C20a-or-accumulator", f,
-                  "an alternative protein can only turn a decoy label into "
-                  "a target label (label := label or not decoy(alt))",
-                  f"update to {show(v, 100)} under "
-                  f"{[(show(t, 50), o) for t, o in cs]}: a PSM with a "
-                  "target primary protein and a decoy alternative (or the "
-                  "reverse) is mislabelled", node=upd.node)
-        mine = [e for e in apps if ALT is not None
-                and no_uids(simp(e.args[0])) == no_uids(ALT)]
-        ok_app = len(mine) == 1 and len(joined) == 1 and \
-            container_id(mine[0].recv) is not None and \
-            container_id(mine[0].recv) == container_id(
-                joined[0].value[3][0]) and \
-            [c for c in loop_conds(mine[0])] == [
-                c for c in cs if c not in [(t, False) for t in LABEL_NOW]] \
-            and cfg.every_path_passes(
-                cfg.entry.id, cfg.node_of(upd.stmt).id,
-                {cfg.node_of(mine[0].stmt).id})
-        ctx.check(ok_app, "C20a-alternative-collected", f,
-                  "every alternative accession is appended (to the list "
-                  "that is joined into the result) before it is judged",
-                  f"appends: {[show(simp(e.args[0]), 80) for e in apps]}",
-                  node=upd.node)
+    in_loop = [e for e in evs if e.stmt is not None and inside(e.stmt, el)]
+    first = cfg.node_of(el.body[0]).id
+    hdr = cfg.node_of(el).id
+
+    def atoms_for(kind, label_now, alt_decoy, other_decoy=False):
+        tag = "{http://regis-web.systemsbiology.net/pepXML}" + kind
+
+        def atoms(t):
+            if t == TAG:
+                return tag
+            t2 = no_uids(simp(t))
+            if t2[0] == "sub" and t2[2] == ("const", "label") and \
+                    is_d(t2[1]):
+                return label_now
+            if t2[0] == "mcall" and t2[2] == "startswith" and \
+                    t2[3] == (PRE,):
+                r = t2[1]
+                if r == no_uids(ALT) or (
+                        r[0] == "sub" and r[2] in (
+                            ("const", -1), ("un", "-", ("const", 1)))):
+                    return alt_decoy
+                # some other accession (the primary one, an earlier
+                # alternative): its own, independent decoy status
+                return other_decoy
+            raise KeyError(t)
+        return atoms
+
+    def executed(at):
+        def decide(test):
+            if not inside(test, el):
+                return None
+            return bool(ev(simp(T.of(test)), at))
+        vis = cfg.visited_under(first, decide, stop={hdr})
+        return [e for e in in_loop if cfg.node_of(e.stmt).id in vis]
+
+    rows, bad_alt, bad_lab, bad_score, bad_mod = [], [], [], [], []
+    mod_stores = set()
+    try:
+        for kind in ("modification_info", "search_score",
+                     "alternative_protein"):
+            for label_now in (True, False):
+                for alt_decoy, other_decoy in ((True, True), (True, False),
+                                               (False, True),
+                                               (False, False)):
+                    at = atoms_for(kind, label_now, alt_decoy, other_decoy)
+                    ex = executed(at)
+                    apps = [e for e in ex if e.kind == "append"
+                            and container_id(e.recv) is not None]
+                    labs = [e for e in ex if e.kind == "store"
+                            and is_d(e.recv)
+                            and e.key == ("const", "label")]
+                    peps = [e for e in ex if e.kind == "store"
+                            and is_d(e.recv)
+                            and e.key == ("const", "peptide")]
+                    scores = [e for e in ex if e.kind == "store"
+                              and is_d(e.recv) and e.key[0] != "const"]
+                    row = (kind, label_now, alt_decoy)
+                    if kind == "alternative_protein":
+                        ok_a = len(apps) == 1 and no_uids(simp(
+                            apps[0].args[0])) == no_uids(ALT) and len(
+                                joined) == 1 and container_id(
+                                    apps[0].recv) == container_id(
+                                        joined[0].value[3][0])
+                        if not ok_a or peps or scores:
+                            bad_alt.append(row)
+                        # label afterwards
+                        new = label_now
+                        for e in labs:
+                            new = bool(ev(no_uids(simp(e.value)), at))
+                        if new != (label_now or not alt_decoy):
+                            bad_lab.append(row + (new,))
+                        # collected before it is judged
+                        if ok_a and labs and not cfg.every_path_passes(
+                                cfg.entry.id, cfg.node_of(labs[0].stmt).id,
+                                {cfg.node_of(apps[0].stmt).id}):
+                            bad_alt.append(row + ("judged before collected",))
+                    elif kind == "search_score":
+                        ok_s = len(scores) == 1 and no_uids(simp(
+                            scores[0].key)) == ("mcall", no_uids(ELEM),
+                                                "get", (("const", "name"),),
+                                                ()) and no_uids(simp(
+                                scores[0].value)) == (
+                                "mcall", no_uids(ELEM), "get",
+                                (("const", "value"),), ())
+                        if not ok_s or apps or labs or peps:
+                            bad_score.append(row)
+                    else:
+                        if len(peps) != 1 or apps or labs or scores:
+                            bad_mod.append(row)
+                        mod_stores.update(id(e.stmt) for e in peps)
+    except (Unknown, KeyError) as e:
+        raise AnalysisError(f"{f.qual}: a test in the loop over the child "
+                            f"elements is outside the evaluated fragment: "
+                            f"{str(e)[:100]}")
+    ctx.check(not bad_alt, "C20a-alternative-collected", f,
+              "every alternative accession is appended (to the list that is "
+              "joined into the result) before it is judged",
+              f"deviates for (kind, label, alternative is decoy): "
+              f"{bad_alt[:3]}", node=el)
+    ctx.check(not bad_lab, "C20a-or-accumulator", f,
+              "an alternative protein can only turn a decoy label into a "
+              "target label (label := label or not decoy(alt))",
+              "(kind, label before, alternative is decoy, label after) = "
+              f"{bad_lab[:4]}: a PSM with a target primary protein and a "
+              "decoy alternative (or the reverse) is mislabelled", node=el)
+    ctx.check(not bad_score, "C20c-search-scores", f,
+              "every search_score becomes a feature under its own name "
+              "(and nothing else happens for it)",
+              f"deviates for {bad_score[:3]}", node=el)
+    ctx.check(not bad_mod, "C20b-modified-peptide-stored", f,
+              "a modification_info element replaces the peptide (and "
+              "nothing else happens for it)", f"deviates for {bad_mod[:3]}",
+              node=el)
     # (b) modification insertion
     Tn = Terms(du)
     mloops = [n for n in ast.walk(f.node) if isinstance(n, ast.For)
@@ -316,13 +392,12 @@ def _psm(ctx, f):
     incs = [a_ for a_ in augs if a_.target.id == off
             and isinstance(a_.op, ast.Add)]
     ctx.require(len(incs) == 1, f"{f.qual}: running offset update not found")
-    linc = lin(Tv.of(incs[0].value))
-    inc_lens = sorted(tkey_(no_uids(linc.terms[k])) for k, c in
-                      linc.atoms.items() if c == 1)
-    want_lens = sorted(tkey_(no_uids(("call", "builtins.len", (x,), ())))
-                       for x in texts)
-    ok = linc.const == consts and inc_lens == want_lens and all(
-        c == 1 for c in linc.atoms.values())
+    from ..tutil import lin_with_lengths, strlen_lin
+    linc = lin_with_lengths(no_uids(Tv.of(incs[0].value)))
+    want = Lin_zero()
+    for x in mid:
+        want = want + strlen_lin(no_uids(x))
+    ok = linc == want
     ctx.check(ok, "C20b-offset-equals-inserted-length", f,
               "the running offset grows by exactly the length of the "
               "inserted text",
@@ -350,13 +425,6 @@ def _psm(ctx, f):
               "C20b-modified-peptide-stored",
               f, "the modified peptide replaces the plain one",
               f"{[show(e.value, 60) for e in fin]}", node=f.node)
-    # search scores become features; proteins joined
-    other = [n for n in ast.walk(f.node) if isinstance(n, ast.Assign)
-             and ast.unparse(n.targets[0]) == f"{d}[element.get('name')]"]
-    ctx.check(len(other) == 1 and ast.unparse(other[0].value) ==
-              "element.get('value')", "C20c-search-scores", f,
-              "every search_score becomes a feature under its own name",
-              f"{[ast.unparse(o)[:60] for o in other]}", node=f.node)
     rets = [n for n in ast.walk(f.node) if isinstance(n, ast.Return)]
     ctx.check(len(rets) == 1 and ast.unparse(rets[0].value) == d,
               "C20c-one-dict-per-hit", f, "one dictionary is returned per "
@@ -559,26 +627,90 @@ def _nesting(ctx):
               f"{[ast.unparse(i)[:80] for i in it]}", node=top.node)
 
 
+def Lin_zero():
+    from ..tutil import Lin
+    return Lin({}, 0)
+
+
 def _read(ctx, f):
-    cat = [n for n in ast.walk(f.node) if isinstance(n, ast.Call)
-           and callee_is(ctx.prog, f, n, "pandas.concat")]
-    ok = bool(cat) and ast.unparse(cat[0].args[0]) == \
-        "[_parse_pepxml(f, decoy_prefix) for f in pepxml_files]"
+    """read_pepxml: every file is parsed (with the caller's prefix) and the
+    frames are concatenated in order; files carrying Percolator results are
+    rejected - judged on terms and by evaluating the rejection test for a
+    column set with and without such a column."""
+    from ..chunks import Unknown, ev
+    from ..proto import Calls
+    from ..tutil import bound_args, normalise, one_to_one
+    prog = ctx.prog
+    du = DefUse(prog, f)
+    T = Terms(du)
+    cfg = CFG(f.node)
+    c = Calls(prog, f, du=du, T=T, cfg=cfg)
+    cat = c.calls("pandas.concat")
+    ok = False
+    why = f"{[show(t, 100) for t, _n in cat[:1]]}"
+    FRAMES = None
+    cat = [x for x in cat if x[0][2] and any(
+        isinstance(y, tuple) and y[:2] == ("call", PX + "_parse_pepxml")
+        for y in walk_term(x[0][2][0])) and not any(
+        isinstance(y, tuple) and y[:2] == ("call", "pandas.concat")
+        for y in walk_term(x[0][2][0]))]
+    if cat and cat[0][0][2]:
+        X = normalise(cat[0][0][2][0])
+        base = one_to_one(X)
+        files = ("param", f.params[0])
+        if base is not None and base[0] == "call" and \
+                base[1] == "mokapot.utils.tuplize" and base[2] == (files,):
+            base = files
+        if X[0] == "comp" and len(X[3]) == 1 and not X[3][0][2] and \
+                base == files:
+            e = X[2]
+            b = bound_args(prog, e) if e[0] == "call" else None
+            pp = prog.func(PX + "_parse_pepxml").params
+            ok = (b is not None and e[1] == PX + "_parse_pepxml"
+                  and b.get(pp[0]) == ("elem", X[3][0][1])
+                  and b.get(pp[1]) == ("param", "decoy_prefix"))
+            FRAMES = cat[0][0]
     ctx.check(ok, "C20c-files-concatenated", f,
               "every file is parsed with the caller's decoy prefix and the "
-              "results are concatenated in order",
-              f"{[ast.unparse(c)[:100] for c in cat[:1]]}", node=f.node)
-    cfg = CFG(f.node)
-    raises = [n for n in ast.walk(f.node) if isinstance(n, ast.Raise)]
-    ok_r = any("illegal_cols.intersection" in ast.unparse(g[0]) and g[1]
-               for r in raises for g in cfg.guards(r))
-    ill = [n for n in ast.walk(f.node) if isinstance(n, ast.Assign)
-           and ast.unparse(n.targets[0]) == "illegal_cols"]
-    ok_r = ok_r and len(ill) == 1 and "Percolator q-Value" in ast.unparse(
-        ill[0].value)
+              "results are concatenated in order", why, node=f.node)
+    raises = [n for n in walk_own(f.node) if isinstance(n, ast.Raise)]
+    PERC = {"Percolator q-Value", "Percolator PEP", "Percolator SVMScore"}
+    ok_r = False
+    why_r = "no raise on Percolator columns"
+    COLS = None
+    if FRAMES is not None:
+        COLS = ("attr", FRAMES, "columns")
+    for r in raises:
+        conds = cond_terms(cfg, T, r)
+        names = {x[1] for t_, _o in conds for x in walk_term(t_)
+                 if isinstance(x, tuple) and len(x) == 2 and x[0] == "const"
+                 and isinstance(x[1], str)}
+        if not (names & PERC) or COLS is None:
+            continue
+        res = []
+        try:
+            for cols in (["scan", "hyperscore"],
+                         ["scan", "Percolator q-Value"],
+                         ["Percolator PEP"], ["x", "Percolator SVMScore"]):
+                def atoms(t, cols=cols):
+                    if t == COLS:
+                        return list(cols)
+                    if t[0] == "call" and t[1] in (
+                            "builtins.set", "builtins.list",
+                            "builtins.frozenset") and t[2] == (COLS,):
+                        return set(cols) if t[1] != "builtins.list" \
+                            else list(cols)
+                    raise KeyError(t)
+                res.append(all(bool(ev(t_, atoms)) == o for t_, o in conds))
+        except (Unknown, KeyError) as e:
+            raise AnalysisError(f"{f.qual}: the rejection test is outside "
+                                f"the evaluated fragment: {str(e)[:80]}")
+        ok_r = res == [False, True, True, True]
+        why_r = (f"rejection for (no, q-Value, PEP, SVMScore) column sets: "
+                 f"{res}")
     ctx.check(ok_r, "C20c-percolator-output-rejected", f,
               "files that already carry Percolator results are rejected",
-              "no raise on Percolator columns", node=f.node)
+              why_r, node=f.node)
 
 
 def _dict_items(t):
